@@ -509,6 +509,26 @@ def _worlds(spec, mon, rec):
             rec.violation('limit-refusal-has-wrong-class:%s' % type(out[1]).__name__,
                           '%s with limitIterators=%d and a %d-element $big raised %s: %s instead of CollectionTooLargeException' % (
                               text, n, len(big), type(out[1]).__name__, str(out[1])[:80]), rp)
+    # (a2) the options an engine was created with are its own: the host may reuse or change the dict afterwards
+    opts = {'yaql.limitIterators': n, 'yaql.memoryQuota': 3000}
+    own = yaql.YaqlFactory().create(options=opts)
+    copy_of = own.copy({})
+    opts['yaql.limitIterators'] = 10 ** 6
+    opts['yaql.memoryQuota'] = 10 ** 9
+    opts.clear()
+    for ename, e in (('created-with-dict', own), ('copy', copy_of)):
+        for text in ('range(%d).toList()' % (n + 5), "'x' * 5000", 'range(%d).select($).len()' % (n + 5)):
+            try:
+                out = ('value', e(text).evaluate(context=mon.ctx.create_child_context()))
+            except Exception as ex:
+                out = ('exc', ex)
+            rec.count('src.cases')
+            rec.count('limit.options_dict_cases')
+            rec.case(('options-dict', ename, text, n), nontrivial=True)
+            if out[0] == 'value':
+                rec.violation('limit-follows-the-hosts-options-dict', '%s on an engine created with limitIterators=%d / memoryQuota=3000 returned '
+                              '%s after the host changed the dict it had passed (%s)' % (text, n, _short(out), ename),
+                              {'kind': 'options-dict', 'text': text, 'n': n})
     # (b) calling a function value: the arguments stay lazy and limited
     deng = yq.engine({'yaql.limitIterators': n}, allow_delegates=True)
     dctx = yaql.create_context(delegates=True)
